@@ -86,6 +86,11 @@ CHECKS["C16"] = dict(
    text="Generated-input search with a reference implementation: for generated reference/source shapes, axis permutations, scalings and offsets between the pixel frames, bounds (scalar and ranged, partly or wholly outside), value and mask requests, broadcast on/off and sequences of up to 8 requests sharing one cache id (varying bounds, attribute, selection and source dataset), every buffer must equal nearest-pixel resampling computed independently, NaN/False outside the source, with the scalar-bound dimensions dropped.",
    note="Trusted: the resampler in pbt/props/c16.py; exact affine pixel links; samples within 1e-9 of a half-integer position are not compared; data and links fixed within a sequence.",
    ref="DESIGN.md section 4 C16")
+CHECKS["C19"] = dict(
+   technique="property-based round-trip testing (Hypothesis): export with every registered exporter that has a reader, load back with load_data, compare",
+   text="Generated-input search with a round-trip oracle: generated tables (float with NaN, int, text columns; names in generated order) and images (mixed float/int dtypes) are exported whole or as empty/proper/full subsets with each exporter of the registry that has a reader (CSV, FITS table, VO table, HDF5, gridded FITS), loaded back with the auto-detected factory, and compared by name, order and dtype-appropriate values (selected rows for tables, masked pixels for images); a collection of loaded files saved by reference must restore to the same values.",
+   note="Trusted: per-format representability table fixed in pbt/props/c19.py (upper-cased FITS extension names, HDF5 ASCII bytes, 0 as HDF5 integer blank); zero-row tables counted, not asserted.",
+   ref="DESIGN.md section 4 C19")
 NOT_APPLICABLE = []
 
 def main():
